@@ -10,7 +10,7 @@ CLAIMED = {
    note="Trusted: Lean kernel + propext/Classical.choice/Quot.sound; the hand-written models (validated by the correspondence run); the Go harness and bngdrv; atomic-step abstraction for concurrent callers."),
  "C04": dict(design="DESIGN.md §7 C04",
    technique="Lean 4 proof: session invariant + induction over frame sequences of the PPPoE server model, ghost authentication flag justified by a separate theorem; differential correspondence against the real frame handlers; monitor on the real session table and emitted frames; go/ast translator (extractguards) regenerating the frame handlers' guard table on every run with kernel-decided gate theorems (Spec.C04Guards)",
-   text="Machine-checked theorems service_requires_auth, ipcp_ack_requires_auth, foreign_mac_inert and ghost_set_only_by_accepted_pap over an executable Lean model of pkg/pppoe/server.go for all frame sequences, MACs and RADIUS outcomes; model tied to /repo by driving the real handlers on an in-memory socket (verif hook) with a scripted loopback RADIUS server. The monitor run on the implementation (PppoeMon.monitorCore) is itself proved silent on every history of the model (Spec.C16PppoeWhole.monitor_silent_on_model); the PPP Authenticator (auth.go) is a second component (pppauth, Spec.C04Auth).",
+   text="Machine-checked theorems service_requires_auth, ipcp_ack_requires_auth, foreign_mac_inert and ghost_set_only_by_accepted_pap over an executable Lean model of pkg/pppoe/server.go for all frame sequences, MACs and RADIUS outcomes; model tied to /repo by feeding whole Ethernet frames to the server's own receiveLoop (one reused receive buffer, as in production) through an in-memory socket (verif hook) with a scripted loopback RADIUS server. The monitor run on the implementation (PppoeMon.monitorCore) is itself proved silent on every history of the model (Spec.C16PppoeWhole.monitor_silent_on_model); the PPP Authenticator (auth.go) is a second component (pppauth, Spec.C04Auth).",
    note="Trusted: Lean kernel + propext/Classical.choice/Quot.sound; the hand-written model (validated by the correspondence run); harness and bngdrv; well-formed frames only (malformed input is C09); RADIUS library."),
  "C05": dict(design="DESIGN.md §7 C05",
    technique="Lean 4 proof: counting invariant, pigeonhole, exhaustion-only-when-full, release-returns over the pool models; differential correspondence; abstract pool monitor on the implementation",
